@@ -19,12 +19,14 @@ type XVRaceNode struct {
 	ParentPath string
 	HasParent  bool
 	State      int32
+	Paused     bool
+	Mailbox    vivid.Mailbox
 	Children   []string // path keys of the children map
 	ChildRefs  []string // path of the ref stored under each key (must equal the key)
 }
 
 func xvRaceNode(c *Context) XVRaceNode {
-	n := XVRaceNode{Path: c.ref.GetPath(), HasParent: c.parent != nil, State: atomic.LoadInt32(&c.state)}
+	n := XVRaceNode{Path: c.ref.GetPath(), HasParent: c.parent != nil, State: atomic.LoadInt32(&c.state), Paused: c.mailbox.IsPaused(), Mailbox: c.mailbox}
 	if c.parent != nil {
 		n.ParentPath = c.parent.GetPath()
 	}
